@@ -436,6 +436,9 @@ class DataFormat(object):
         assert key
         assert value is not None
         try:
+            if isinstance(value, str) and (("_" in value) or not value.isascii()):
+                # Refuse texts only int() considers numbers, for example "1_0" or digits from non ASCII scripts.
+                raise ValueError("number must consist of ASCII digits: %r" % value)
             result = int(value)
         except ValueError:
             raise errors.InterfaceError(
